@@ -21,11 +21,24 @@ type rrTr struct {
 	fields map[string]string // receiver field → Lean parameter
 	params map[string]string
 	locals map[string]bool
+	// extensions used by routine.go (all empty for RecordRange)
+	what   string            // name used in messages
+	funcs  map[string]int    // local closures → arity
+	state  map[string]string // mutable receiver field → Lean local holding its current value
+	guard  string            // mutex field that must be held when a state field is touched ("" = none)
+	locked bool
+	calls  map[string]string // `pkg.Fn()` → Lean parameter (e.g. runtime.NumCPU)
+	nret   int               // results of a return statement (0 = two, as in RecordRange)
+	tail   string            // appended to every returned tuple / returned at the end of the body
 }
 
 func (t *rrTr) fail(n ast.Node, msg string) {
 	p := t.fset.Position(n.Pos())
-	fatal("%s:%d: RecordRange: %s — outside the translated subset", filepath.Base(p.Filename), p.Line, msg)
+	what := t.what
+	if what == "" {
+		what = "RecordRange"
+	}
+	fatal("%s:%d: %s: %s — outside the translated subset", filepath.Base(p.Filename), p.Line, what, msg)
 }
 
 func (t *rrTr) expr(e ast.Expr) string {
@@ -50,6 +63,12 @@ func (t *rrTr) expr(e ast.Expr) string {
 			if p, ok := t.fields[x.Sel.Name]; ok {
 				return p
 			}
+			if p, ok := t.state[x.Sel.Name]; ok {
+				if t.guard != "" && !t.locked {
+					t.fail(e, "field "+x.Sel.Name+" touched without holding "+t.guard)
+				}
+				return p
+			}
 			t.fail(e, "receiver field "+x.Sel.Name+" is not one of recordLen, Number")
 		}
 		t.fail(e, "selector")
@@ -66,6 +85,8 @@ func (t *rrTr) expr(e ast.Expr) string {
 			return "(Int.tdiv " + a + " " + b + ")"
 		}
 		t.fail(e, "operator "+x.Op.String())
+	case *ast.CallExpr:
+		return t.call(x)
 	}
 	t.fail(e, "expression")
 	return ""
